@@ -58,6 +58,41 @@ def impl(case):
             out["treesum_grown"] = common.enc_w(grown().treesum(), R)
         except Exception as e:  # noqa
             out["treesum_grown"] = {"exc": type(e).__name__, "msg": str(e)[:200]}
+    # a TRUNCATED evaluation (`maxiter` small) stops each strongly connected block early, but a nonterminal that is not recursive
+    # is a block of its own and is evaluated in one step from the (possibly truncated) values below it: its entry must equal
+    # the sum over its rules of weight x product of the chart entries of the body — whatever happened in the earlier blocks
+    if R in ("Float", "Real"):
+        try:
+            fl = lambda v: float(v.score if hasattr(v, "score") else v)   # noqa
+            g4 = common.mk_cfg(case["cfg"], R)
+            succ = {X: set() for X in g4.N}
+            for r in g4.rules:
+                succ[r.head].update(y for y in r.body if y in g4.N)
+
+            def recursive(X):
+                seen, st = set(), list(succ[X])
+                while st:
+                    y = st.pop()
+                    if y not in seen:
+                        seen.add(y)
+                        st += list(succ[y])
+                return X in seen
+            rows = []
+            for m in (1, 3, 10):
+                ch = g4.agenda(maxiter=m)
+                for X in g4.N:
+                    if not recursive(X):
+                        val = 0.0
+                        for r in g4.rules:
+                            if r.head == X:
+                                w = fl(r.w)
+                                for y in r.body:
+                                    w *= 1.0 if y in g4.V else fl(ch[y])
+                                val += w
+                        rows.append([m, common.enc_sym(X), fl(ch[X]), val])
+            out["agenda_trunc"] = rows
+        except Exception as e:  # noqa
+            out["agenda_trunc"] = {"exc": type(e).__name__, "msg": str(e)[:200]}
     try:
         out["treesum"] = common.enc_w(common.mk_cfg(case["cfg"], R).treesum(), R)
     except Exception as e:  # noqa
@@ -190,6 +225,16 @@ def run(ctx):
                 for X, v in got.items():
                     if X not in vals and json.loads(X) not in V and v not in (0, False):
                         semantic.append(_viol(c, hs, name, json.loads(X), 0, str(v)))
+            at = res.get("agenda_trunc")
+            if isinstance(at, dict):
+                semantic.append(_viol(c, hs, "agenda_trunc", None, None, at))
+            elif at:
+                for m, X, gotv, val in at:
+                    evaluations += 1
+                    if not (abs(gotv - val) <= 1e-9 * max(1.0, abs(val))):
+                        semantic.append(_viol(c, hs, "agenda_trunc", X, val, {"maxiter": m, "chart_entry": gotv, "one_step_from_the_chart": val}))
+                    else:
+                        traces += 1
             for tname in ("treesum",) + (("treesum_grown",) if c.get("split") is not None else ()):
                 ts = res[tname]
                 evaluations += 1
